@@ -80,7 +80,8 @@ type Ans struct {
 // Fault tampers with the n-th (1-based) store operation of an exchange.
 type Fault struct {
 	N    int    `json:"n"`
-	Kind string `json:"kind"` // err | notexist | trunc | garbage | null | empty | flip | seterr | delerr
+	Kind string `json:"kind"` // err | notexist | trunc | garbage | null | empty | flip | flipat | truncat | extend | seterr | delerr
+	Pos  int    `json:"pos"`  // byte position for flipat / truncat
 }
 
 type Step struct {
@@ -108,6 +109,7 @@ type Scenario struct {
 	Steps   []Step          `json:"steps"`
 	Grp     string          `json:"grp"` // scenarios of one group must show the same abstract observations (C12, C10 logger)
 	Spv     int             `json:"spv"` // 0 = the canonical member of the group
+	Gk      string          `json:"gk"`  // kind of group: "spell" (C12) or "log" (C10 logger independence)
 	Meta    json.RawMessage `json:"meta,omitempty"`
 }
 
